@@ -27,7 +27,7 @@ CHECKS = {
 CHECKS.update({
     "C01": ("exploration",
         "invariant check over exhaustive short streams + Hypothesis-generated streams; identity of unique frame objects",
-        "All patterns up to 10 frames (thorough 14) x all accepted parameter tuples with max_length<=3 (4) incl. initial-phase settings, plus generated streams to 64 (300) frames / max_length 8 (24), three frame kinds, three delivery modes. Each token is compared frame-by-frame (object identity) with the stream positions it claims. Exhaustive inside bounds, sampled beyond.",
+        "All patterns up to 10 frames (thorough 14) x all accepted parameter tuples with max_length<=3 (4) incl. initial-phase settings, plus generated streams to 64 (300) frames / max_length 8 (24) and occasionally 250-300, five frame kinds (unique objects, characters, bytes, falsy/truthy ints, numpy-bool validator), three delivery modes, a quarter of the cases on a tokenizer used before (complete run, abandoned generator, two coexisting generators, generator closed mid-run). Each token is compared frame-by-frame (object identity) with the stream positions it claims. Exhaustive inside bounds, sampled beyond.",
         "harness source hands out frames in order; CPython; Hypothesis", "DESIGN.md 4/C01"),
     "C02": ("exploration",
         "invariant check over exhaustive short streams + generated streams; complete enumeration of the constructor argument grid against a decision table",
@@ -50,7 +50,7 @@ CHECKS.update({
 CHECKS.update({
     "C06": ("exploration",
         "differential: exact-rational window counts (1e-9 rule) -> reference segmentation vs split() on burst/gap recordings; complete enumeration of a reject grid against a decision table",
-        "Durations are built as decimal multiples of the window (whose float quotient is often not an integer) or clear non-multiples; recordings hold bursts of m-1, m, m+1 windows, gaps of s and s+1 windows and a burst of 2M+1 windows, so each of the three counts is observed directly. The accept/reject decision is enumerated on 9408 tuples.",
+        "Durations are built as decimal multiples of the window (whose float quotient is often not an integer) or clear non-multiples; windows that are not a whole number of samples, reader inputs (plain, overlapping, with a conflicting analysis_window argument) included; recordings hold bursts of m-1, m, m+1 windows, gaps of s and s+1 windows and a burst of 2M+1 windows, so each of the three counts is observed directly. The accept/reject decision is enumerated on 9408 tuples.",
         "statement's 1e-9 rule vs implementation epsilon: quotients between 1e-11 and 1e-8 from an integer are not generated", "DESIGN.md 4/C06"),
     "C07": ("exploration",
         "differential against an exact-rational energy oracle (50-digit dB), exact-boundary constructions, metamorphic monotonicity in the threshold",
@@ -62,15 +62,15 @@ CHECKS.update({
         "baseline split(bytes) judged by C05", "DESIGN.md 4/C09"),
     "C10": ("exploration",
         "model-based: closed-form block sequence over generated source/format/block/hop/max_read/source-kind/over-read configurations",
-        "Every read() of every generated configuration (incl. empty sources, max_read 0, lazy files, hop==block) compared with the closed form; rejected configurations must raise ValueError.",
+        "Every read() of every generated configuration (incl. empty sources, max_read 0, lazy files, stdin behind a BytesIO or a real pipe, already-consumed buffer sources, hop==block, durations with fractional sample parts) compared with the closed form; rejected configurations must raise ValueError.",
         "razor of 1e-9 on floor/round of duration*rate", "DESIGN.md 4/C10"),
     "C11": ("exploration",
         "stateful model-based testing (Hypothesis rule-based state machine) over read/position/rewind/close/open histories, per source kind",
-        "Cursor model over the byte string compared after every step for buffer, lazy raw, lazy wav and stdin sources; thorough adds a real OS pipe fed in odd-sized chunks.",
+        "Cursor model over the byte string compared after every step for buffer, lazy raw, lazy wav and stdin sources (BytesIO and real OS pipe fed in odd-sized chunks); every integer millisecond position of 1.2 s buffers at six rates is set and read back.",
         "file/stdin sources are never reopened (not claimed)", "DESIGN.md 4/C11"),
     "C16": ("exploration",
         "model-based: Python list slicing of the sample list; exhaustive small slice grid + generated big ints/floats; exact-rational bounds for time views",
-        "All sample slices with bounds in {None} U [-15,15] on all regions up to 12 samples x 9 formats are enumerated; seconds/millis views and invalid indices are generated.",
+        "All sample slices with bounds in {None} U [-15,15] on all regions up to 12 samples x 9 formats are enumerated, as is every integer millisecond bound of a 1.5 s region at ten rates; seconds/millis views and invalid indices (incl. falsy ones) are generated.",
         "razor of 1e-9 on trunc/round of t*rate; |t| <= 1e15", "DESIGN.md 4/C16"),
     "C17": ("exploration",
         "stateful model-based testing (rule-based state machine) over a pool of regions with a bytes-level model; operands re-verified after every step",
@@ -78,7 +78,7 @@ CHECKS.update({
         "dividing an empty region not generated", "DESIGN.md 4/C17"),
     "C18": ("exploration",
         "round-trip + differential: writer judged with stdlib wave/open, reader against the written bytes and exact-rational slicing; struct-level decode for numpy()",
-        "Generated audio x formats x writer x reader (eager/lazy) x name templates x exists_ok x skip/max_read incl. between samples and beyond the end.",
+        "Generated audio (incl. > 2^16 samples) x formats (extension, explicit, mixed-case spellings) x writer (bytes-like inputs) x reader (eager/lazy) x name templates x exists_ok x skip/max_read incl. between samples and beyond the end.",
         "razor on round(s*rate)", "DESIGN.md 4/C18"),
     "C19": ("exploration",
         "stateful model-based testing (rule-based state machine) over read/rewind/data histories of recording and non-recording readers",
@@ -93,7 +93,7 @@ CHECKS.update({
 CHECKS.update({
     "C12": ("exploration",
         "invariant over schedules: real worker threads serialised by a harness-owned scheduler whose choices (incl. when queue waits time out) are Hypothesis-generated; differential against split()",
-        "Every generated (input, observer set, schedule) runs the real TokenizerWorker/observer threads with exactly one thread running at a time; observer logs, ids, printed lines and the worker's detections list must equal split(); deadlock and non-termination are detected in model steps. A few cases are repeated free-running on the real queue.Queue.",
+        "Every generated (input, observer set, start order, schedule) runs the real TokenizerWorker/observer threads with exactly one thread running at a time (yield points: queue put/get incl. bounded queues and put timeouts, join incl. join timeouts, is_alive, start/exit, source reads, observer callbacks; starved consumers on long streams); observer logs, ids, printed lines and the worker's detections list must equal split(); deadlock and non-termination are detected in model steps. A few cases are repeated free-running on the real queue.Queue.",
         "interleavings at the granularity of queue operations / reads / callbacks / start / exit / join; fairness after the generated prefix; CPython threading and wave trusted", "DESIGN.md 3.4, 4/C12"),
     "C13": ("exploration",
         "differential over schedules: files written by the saver/joiner/region workers parsed with stdlib wave and compared with the blocks handed out / split() / split_and_join_with_silence()",
